@@ -24,6 +24,8 @@ func runC13(c *Ctx) {
 	ruleNoForeignMutation(c)
 	ruleRefusalIsAnError(c, "R13.g")
 	ruleAuthenticatorsReadOnly(c, "R13.h")
+	ruleGoroutineOwnsItsIteration(c, "R13.i")
+	rulePresenceNotContent(c, "R13.j")
 	c.assume("applications do not mutate *Conn values obtained from Server.Conns()")
 }
 
